@@ -155,6 +155,15 @@ def run(prop, tier, seed, replay=None):
             apalache_phase(rep)
         hist, ngen, nrand = gen_histories(tier, seed, rnd)
         rep.notes.update(tlc_generated_histories=ngen, random_histories=nrand)
+        if prop == "C06":
+            # bucket-level operations on LARGE buckets (more than a thousand events): every statement of the deletion is a crash point
+            big = []
+            for i in range(1 if tier == "quick" else 4):
+                n = 1100 if tier == "quick" else rnd.choice([1100, 1500, 2300])
+                big.append(("big%d" % i, [{"op": "create", "b": "A", "m": "m1"}, {"op": "insert_many", "b": "A", "n": n}, {"op": rnd.choice(["get1", "count"]), "b": "A"},
+                                          {"op": "create", "b": "B", "m": "m2"}, {"op": "insert", "b": "B"}, {"op": "delete_bucket", "b": "A"}, {"op": "insert", "b": "B"}]))
+            hist += big
+            rep.notes["large_bucket_histories"] = len(big)
         backends = ("sqlite", "peewee")
     else:
         hist = [("replay", replay["history"])]
